@@ -307,6 +307,30 @@ Theorem C13_chain_clone_wellformed : forall s i priv,
 Proof. exact clone_inv. Qed.
 Print Assumptions C13_chain_clone_wellformed.
 
+(** the operations that the correspondence check replays against the real hash
+    tables (engine attr-chain) keep every state well-formed: clones of both
+    kinds with reference counts, creation of a whole path through any level,
+    removal of a subtree, dropping references until dictionaries are freed —
+    and after any release nothing dangles.  [invb] is what the check evaluates
+    on every replayed state. *)
+Theorem C13_chain_ops_wellformed :
+  (forall s k, inv s -> inv (clone_shared s k)) /\
+  (forall s i priv, inv s -> (forall p q c, In p priv -> p = q ++ [c] -> In q priv) ->
+                    inv (clone_xlat_ref s i priv)) /\
+  (forall todo s i done, inv s -> inv (create_path s i done todo)) /\
+  (forall s i p strict, inv s -> inv (remove_below s i p strict)) /\
+  (forall fuel s k, inv s -> inv (release fuel s k)) /\
+  (forall fuel s k a, inv s -> ~ dangling (release fuel s k) a).
+Proof.
+  exact (conj clone_shared_inv (conj clone_xlat_ref_inv (conj create_path_inv
+        (conj remove_below_inv (conj release_inv release_no_dangling))))).
+Qed.
+Print Assumptions C13_chain_ops_wellformed.
+
+Theorem C13_chain_invb_sound : forall s, invb s = true -> inv s.
+Proof. exact invb_sound. Qed.
+Print Assumptions C13_chain_invb_sound.
+
 Theorem C13_chain_nonvacuous : inv s_chain3 /\ chain s_chain3 2 = [2; 1; 0]%nat.
 Proof. exact (conj s_chain3_inv chain3_walk). Qed.
 Print Assumptions C13_chain_nonvacuous.
